@@ -18,8 +18,12 @@ func main() {
 		timeout = flag.Duration("timeout", 20*time.Minute, "time budget per harness")
 		noRep   = flag.Bool("noreplay", false, "skip native replay / cross-check")
 		debug   = flag.Bool("debug", false, "print paths")
+		replay  = flag.String("replay", "", "re-execute a stored counterexample (replay file) deterministically with a call trace")
 	)
 	flag.Parse()
+	if *replay != "" {
+		os.Exit(runReplay(*replay, *repo, *verif))
+	}
 	if flag.NArg() < 1 {
 		fmt.Fprintln(os.Stderr, "usage: symgo [flags] <property-id>|selftest")
 		os.Exit(2)
